@@ -160,6 +160,8 @@ class UnitResult:
         self.infeasible = 0
         self.time_s = 0.0
         self.func_hashes: Dict[str, str] = {}
+        self.executed: list = []  # real bodies executed symbolically by this unit
+        self.via_contract: list = []  # callees seen through a sidecar contract in this unit
 
     def to_json(self):
         return {
@@ -171,6 +173,8 @@ class UnitResult:
             "infeasible_paths": self.infeasible,
             "time_s": round(self.time_s, 3),
             "functions": self.func_hashes,
+            "executed_bodies": self.executed,
+            "seen_through_contract": self.via_contract,
             "sites": self.sites,
         }
 
@@ -225,6 +229,9 @@ def run_unit(unit: Unit, timeout_ms=None, repo_root=None) -> UnitResult:
         res.message = f"{type(e).__name__}: {e}\n{traceback.format_exc()[-1500:]}"
     res.paths = ex.paths
     res.infeasible = ex.infeasible
+    cov = ex.shared.get("coverage", {})
+    res.executed = sorted(cov.get("executed", ()))
+    res.via_contract = sorted(cov.get("contract", ()))
     for name in ex.order:
         obs = ex.results[name]
         st = "discharged"
